@@ -99,7 +99,9 @@ SpacedLists == {<<E("a", "East Africa"), E("b", "East Asia"), E("c", "East Afric
 MCLists_perm == ListsOver(S3) \cup SpacedLists \cup {AllMarker, <<>>, <<E("a", "A"), E("z", "A")>>, <<E("z", U)>>}
 MCLists_perm_quick == {l \in ListsOver(S3) : Len(l) >= 2 /\ l[1].s # "c"} \cup SpacedLists \cup {AllMarker, <<>>, <<E("a", "A"), E("z", "A")>>}
 \* three asymmetric records so that every permutation is visible in the result
-MCSeq_perm == {<<Row3(HET, HOM0, HOM0), Row3(HOM1, HET, HOM0), Row3(HOM1, HOM1, HET)>>}
+MCSeq_perm == {<<Row3(HET, HOM0, HOM0), Row3(HOM1, HET, HOM0), Row3(HOM1, HOM1, HET)>>,
+               \* ... and a record at which sample c is haploid and b missing: matters exactly when they are listed
+               <<Row3(HET, HOM0, HOM0), Row3(HOM1, MISS, G1(1)), Row3(HOM1, HOM1, HET)>>}
 \* C12: four populations (hash-order dependence would show), two column orders, fixed asymmetric records
 Row4(w, x, y, z) == [gt |-> [s \in S4 |-> IF s = "a" THEN w ELSE IF s = "b" THEN x ELSE IF s = "c" THEN y ELSE z], bad |-> FALSE]
 Lists4 == {<<E("a", "A"), E("b", "B"), E("c", "C"), E("d", "D")>>, <<E("d", "D"), E("b", "B"), E("a", "A"), E("c", "C")>>,
